@@ -454,3 +454,20 @@ M('C13', 'cursor-advanced-in-loop', BTI,
                 }""", ['importer:cursor'], 'cursor moves before the batch loop completed')
 M('C13', 'rollback-threshold-inclusive', 'internal/mithril-persistence/src/database/query/cardano_block/delete_cardano_block_and_transactions.rs',
   'WhereCondition::new("block_number > ?*", vec![threshold])', 'WhereCondition::new("block_number >= ?*", vec![threshold])', ['sql:'], 'the block at the roll-back point is deleted too')
+
+# ---------------------------------------------------------------- C17
+SEC = COMMON + 'entities/signed_entity_config.rs'
+M('C17', 'step-zero-division', SEC,
+  '    let adjusted_step = std::cmp::max(step, BlockNumber(1));\n    (block_number - security_parameter) / adjusted_step * adjusted_step',
+  '    let adjusted_step = step;\n    (block_number - security_parameter) / adjusted_step * adjusted_step', ['beacon:formula'], 'division by a zero step')
+M('C17', 'raw-subtraction', SEC,
+  '(block_number - security_parameter) / adjusted_step * adjusted_step', 'BlockNumber(*block_number - *security_parameter) / adjusted_step * adjusted_step', ['beacon:formula'], 'underflow when the tip is below the security parameter')
+M('C17', 'beacon-from-clock', SEC,
+  """            SignedEntityTypeDiscriminants::MithrilStakeDistribution => {
+                SignedEntityType::MithrilStakeDistribution(time_point.epoch)
+            }""", """            SignedEntityTypeDiscriminants::MithrilStakeDistribution => {
+                let _now = std::time::SystemTime::now();
+                SignedEntityType::MithrilStakeDistribution(time_point.epoch)
+            }""", ['beacon:purity'], 'clock read in the beacon function')
+M('C17', 'roles-swapped', SEC,
+  'compute_block_number_to_be_signed(block_number, self.security_parameter, self.step)', 'compute_block_number_to_be_signed(self.step, self.security_parameter, block_number)', ['formula-args'], 'tip and step swapped')
